@@ -52,7 +52,9 @@ class P(Prop):
     ID = "C11"
     MODULE = "C11"
     THEOREMS = (["C11_%s%d%s" % (t, k, w) for t, ks in (("P", range(8)), ("L", range(9))) for k in ks
-                 for w in ("_S1", "_S2", "_S3", "", "_first", "_indefinite")] + ["C11_indefinite_empty"])
+                 for w in ("_S1", "_S2", "_S3", "", "_first", "_indefinite")] + ["C11_indefinite_empty"] +
+                ["C11_P%d_knot_float" % k for k in range(8)] + ["C11_knot_float_hypotheses_hold"])
+    PINNED_EXTRA = ["C11F.v"]
     KERNELS = (["Segment<%s>::integral" % t for t in INTEGRABLE] + ["Segment<%s>::indefinite" % t for t in INTEGRABLE] +
                ["Segment<%s>::evaluate" % int_type(t) for t in INTEGRABLE])
     RULE = ("Piecewise::integral / indefinite and both segment-integration iterators on 1..10 pieces over Poly0..7 and "
@@ -92,6 +94,13 @@ class P(Prop):
             out.append(c)
         out.append(dict(op="pw_indefinite", ty="Poly2", segs=[], meta={"class": "indefinite/empty"}))
         return out
+
+    def hyp_term(self, case, h):
+        # hypotheses of C11_PK_knot_float on the first piece and the given knot
+        ty = case["ty"]
+        if case["op"] != "pw_integral_all" or not ty.startswith("Poly") or not case["segs"]:
+            return None
+        return "hyp_safe [e_segknot%d] %s" % (int(ty[4:]), C.zlist(list(case["segs"][0]) + list(case["knot"])))
 
     def coq_term(self, case, h):
         ty = case["ty"]
